@@ -7,6 +7,8 @@ CONSTANTS
   AllowRelate = FALSE
   AllowQueryX = FALSE
   AllowSweep = FALSE
+  CopyModes = {}
+  UnregisteredModes = {}
   Hist = TRUE
   PopIdOfNone = FALSE
   StaleRelationIndex = FALSE
